@@ -46,7 +46,7 @@ impl Property for C14 {
     fn cases(&self, tier: Tier) -> u32 {
         match tier {
             Tier::Quick => 5_000,
-            Tier::Thorough => 40_000,
+            Tier::Thorough => 150_000,
         }
     }
 
